@@ -486,8 +486,15 @@ func (cs *CondSpace) leafKey(v ssa.Value) leafRef {
 			return leafRef{"@" + name, neg}
 		}
 	}
+	// a read of a local variable cell that holds exactly one value there IS that value
+	norm := func(v ssa.Value) ssa.Value {
+		if cv := cellValue(v); cv != stripConv(v) {
+			return cv
+		}
+		return v
+	}
 	if x, ok := v.(*ssa.BinOp); ok {
-		a, b := kstr(x.X), kstr(x.Y)
+		a, b := kstr(norm(x.X)), kstr(norm(x.Y))
 		switch x.Op {
 		case token.EQL, token.NEQ:
 			if _, isC := stripConv(x.X).(*ssa.Const); isC {
@@ -506,7 +513,7 @@ func (cs *CondSpace) leafKey(v ssa.Value) leafRef {
 			return leafRef{b + " < " + a, true}
 		}
 	}
-	return leafRef{kstr(v), false}
+	return leafRef{kstr(norm(v)), false}
 }
 
 func (cs *CondSpace) collect(f *cformula, loop bool) {
@@ -908,6 +915,19 @@ func (cs *CondSpace) VirtualReturns() []VRet {
 				}
 			}
 		}
+		if ph == nil && depth < 6 {
+			// a result read from a variable cell that several stores reach: one virtual return per store
+			for k, v := range vals {
+				if cvals, cconds, isCell := cs.cellEdges(v); isCell {
+					for ci, cv := range cvals {
+						nv := append([]ssa.Value(nil), vals...)
+						nv[k] = cv
+						expand(r, nv, and(cond, cconds[ci]), depth+1)
+					}
+					return
+				}
+			}
+		}
 		if ph == nil {
 			out = append(out, VRet{Ret: r, Cond: cond, Vals: vals})
 			return
@@ -951,6 +971,17 @@ func (cs *CondSpace) ResolveUnder(v ssa.Value, cond Bits) []ssa.Value {
 	var walk func(v ssa.Value, cond Bits, depth int)
 	walk = func(v ssa.Value, cond Bits, depth int) {
 		v = stripConv(v)
+		if cvals, cconds, isCell := cs.cellEdges(v); isCell && depth <= 6 {
+			for ci, cv := range cvals {
+				if c2 := and(cond, cconds[ci]); cs.Satisfiable(c2) {
+					walk(cv, c2, depth+1)
+				}
+			}
+			return
+		}
+		if cv := cellValue(v); cv != v {
+			v = cv // a cell with a single reaching store
+		}
 		ph, ok := v.(*ssa.Phi)
 		if !ok || cs.backTo[ph.Block()] || depth > 6 {
 			if !seen[v] {
@@ -975,6 +1006,60 @@ func (cs *CondSpace) ResolveUnder(v ssa.Value, cond Bits) []ssa.Value {
 	}
 	walk(v, cond, 0)
 	return out
+}
+
+// cellEdges: a read of a local variable cell (a named result or a local kept in memory because the function defers or
+// a closure reads it) that several stores can reach behaves like a phi: its value is that of the last store executed on
+// the way. Returned are the candidate values and, for each, the condition under which it is the one read. Only for
+// cells written by their own function alone, with neither the read nor a reaching store inside a loop.
+func (cs *CondSpace) cellEdges(v ssa.Value) (vals []ssa.Value, conds []Bits, ok bool) {
+	u, isU := stripConv(v).(*ssa.UnOp)
+	if !isU || u.Op != token.MUL || u.Parent() != cs.Fn {
+		return nil, nil, false
+	}
+	a, isA := u.X.(*ssa.Alloc)
+	if !isA || !cellLocalOnly(a, u.Parent()) || inLoop(u) {
+		return nil, nil, false
+	}
+	sts, zero := reachingStores(a, u)
+	if len(sts)+btoi(zero) < 2 {
+		return nil, nil, false
+	}
+	for _, st := range sts {
+		if st.Parent() != cs.Fn || inLoop(st) {
+			return nil, nil, false
+		}
+	}
+	for i, st := range sts {
+		c := cs.Reach(st)
+		for j, later := range sts {
+			if i != j && mayPrecede(st, later) {
+				c = and(c, cs.not(cs.Reach(later)))
+			}
+		}
+		vals, conds = append(vals, st.Val), append(conds, c)
+	}
+	if zero {
+		// the variable's zero value, when no store was executed; representable only for nil-able types
+		switch a.Type().(*types.Pointer).Elem().Underlying().(type) {
+		case *types.Pointer, *types.Interface, *types.Slice, *types.Map, *types.Chan, *types.Signature:
+		default:
+			return nil, nil, false
+		}
+		c := cs.True()
+		for _, st := range sts {
+			c = and(c, cs.not(cs.Reach(st)))
+		}
+		vals, conds = append(vals, ssa.NewConst(nil, a.Type().(*types.Pointer).Elem())), append(conds, c)
+	}
+	return vals, conds, true
+}
+
+func btoi(b bool) int {
+	if b {
+		return 1
+	}
+	return 0
 }
 
 // certainlyNonNil: v is the result of an error constructor or a fresh allocation.
